@@ -1,7 +1,7 @@
 _Q = {"prop": "C27", "strata": "gsets", "allow": "null_multi_key", "neutral": "1"}
 ENTRY = {
     "level": "proof",
-    "families": [fam("SQL", 300, 15000, driver="SQLC27", opts={"quick": _Q, "thorough": dict(_Q, sizes="tiny,small,mid")})],
+    "families": [fam("SQL", 300, 3000, driver="SQLC27", opts={"quick": _Q, "thorough": dict(_Q, sizes="tiny,small,mid")})],
     "gen_items": [],
     "rule": "generated statements SELECT <keys>, <1-3 aggregates>, GROUPING(<all keys>) FROM <table | derived table> [WHERE] GROUP BY ROLLUP / CUBE / GROUPING SETS over 1-3 "
             "grouping columns (a random non-empty selection of the output columns projected; explicit sets: 1-3 random subsets covering every key, duplicates and the empty set included) "
